@@ -13,6 +13,7 @@ def configs(tier):
         ('extend: root attributes+text 3docs', dict(family='root_level', fam_kw=dict(docs=3, slots=0, attrs=1, text=True, pool=1))),
         ('extend: 2docs x 2occ x 2slots', dict(family='one_level', fam_kw=dict(docs=2, occ=2, slots=2, attrs=0, text=False, leaf_form=False, p_form=False, pool=2))),
         ('nested 2occ x 2slots x 1grandchild', dict(family='one_level', fam_kw=dict(occ=2, slots=2, gslots=1, attrs=0, text=False, leaf_form=False, p_form=False, pool=2))),
+        ('namespace-prefixed root, parent and children 3occ x 2slots', dict(family='one_level', fam_kw=dict(occ=3, slots=2, attrs=0, text=False, leaf_form=False, rname='h:r', pname='h:p', names=['ns:c', 'c', 'h:p']))),
         ('rendered schema 2occ x 2slots + attr + text', dict(family='one_level', fam_kw=dict(occ=2, slots=2, attrs=1, text=True, leaf_form=False, pool=2), render='quick_xml_de')),
     ]
     if tier == 'quick': return q
@@ -53,7 +54,7 @@ def main():
     c = Check('C03')
     c.assumptions = [
         'bytes -> events is quick_xml (not encoded); the event-script model of Reader::read_event_into is validated against the real event stream of every corpus document and of every replayed/sampled document',
-        'element/attribute names range over a pool of <= 4 distinct strings per position (the parser only compares names; a character-level inspection of a name is detected and makes the path inconclusive)',
+        'element/attribute names range over a pool of <= 4 distinct strings per position (the parser only compares names, so a pool as large as the number of name slots loses no generality; if the code under test starts to inspect the characters of a name this is detected, the run continues by case split over the pool and the evidence carries a note that the data-independence argument no longer applies)',
         'HashMap iteration uses insertion order here; independence of the result from that order is C05',
         'std Vec/Option/Result/String/iterator methods follow their documented contracts (library models of rsym)',
         'inductive step: the pre-state of an element node is arbitrary (k old children / j old attributes with symbolic Mandatory/Optional tags, standalone flags, 32-bit counters < 2^32 - slots - 1, any order of the private children vector, any text flag); one more occurrence must update it exactly. With the first-occurrence base case of the skeleton harnesses this covers ANY number of occurrences and documents at one level; extend_struct runs the same build_struct on a wrapper (src/parser.rs:76-79)',
